@@ -112,6 +112,15 @@ long long libconfig_parse_integer(const char *s, int *ok)
   int errsave = errno;
   errno = 0;
   llval = strtoll(s, &endptr, 0);	/* base 10 or base 8 */
+
+  /* Allow the suffix of a 64-bit integer literal. */
+  if(*endptr == 'L')
+  {
+    ++endptr;
+    if(*endptr == 'L')
+      ++endptr;
+  }
+
   if(*endptr || errno)
   {
     errno = 0;
@@ -126,7 +135,7 @@ long long libconfig_parse_integer(const char *s, int *ok)
 
 /* ------------------------------------------------------------------------- */
 
-unsigned long long libconfig_parse_hex64(const char *s)
+unsigned long long libconfig_parse_hex64(const char *s, int *ok)
 {
 #ifdef __MINGW32__
 
@@ -136,6 +145,8 @@ unsigned long long libconfig_parse_hex64(const char *s)
 
   const char *p = s;
   unsigned long long val = 0;
+
+  *ok = 0;
 
   if(*p != '0')
     return(0);
@@ -147,15 +158,32 @@ unsigned long long libconfig_parse_hex64(const char *s)
 
   for(++p; isxdigit(*p); ++p)
   {
+    if(val >> 60)
+      return(0); /* overflow */
+
     val <<= 4;
     val |= ((*p < 'A') ? (*p & 0xF) : (9 + (*p & 0x7)));
   }
 
+  *ok = 1;
   return(val);
 
 #else /* ! __MINGW32__ */
 
-  return(strtoull(s, NULL, 16));
+  unsigned long long val;
+  int errsave = errno;
+  errno = 0;
+  val = strtoull(s, NULL, 16);
+  if(errno)
+  {
+    errno = 0;
+    *ok = 0;
+    return(0); /* overflow */
+  }
+  errno = errsave;
+
+  *ok = 1;
+  return(val);
 
 #endif /* __MINGW32__ */
 }
